@@ -47,6 +47,8 @@ MIN_COUNTERS = {'dbscan_catalogues': 40, 'dbscan_runs': 400, 'dbscan_links_check
                 'aereg_runs': 8, 'priorized_runs': 8, 'aereg_runs_with_ratio': 8,
                 'aereg_runs_with_psfheader': 4, 'aereg_runs_with_noregroup': 3, 'aereg_runs_with_debug': 3,
                 'threshold_pairs_judged_aereg_rescaled': 100, 'aereg_noregroup_rows_checked': 50,
+                'whole_sphere_runs': 60, 'whole_sphere_runs_default_eps': 10, 'whole_sphere_runs_explicit_eps': 40,
+                'elliptical_catalogues_straddling_ra0': 8, 'elliptical_catalogues_around_pole': 3,
                 'aereg_rows_dropped': 100, 'aereg_dropped_group_members': 80, 'aereg_dropped_bridges': 30,
                 'aereg_dropped_brightest_of_group': 20}
 BATCHES_PER_JOB = 4
@@ -432,6 +434,72 @@ def _run_dbscan(o, case):
         o.n_nontrivial += 1
 
 
+def _run_dbscan_whole_sphere(o, case):
+    """linking lengths at/above the diameter of the unit sphere (chord eps >= 2), including the default argument of
+    regroup_dbscan: every pair is within the chord, so the whole catalogue is one group"""
+    from AegeanTools import cluster
+    rng = rng_for(*case['seed'])
+    n = case['n']
+    if case.get('cat') == 'clustered':
+        nc = max(1, n // 10)
+        cra, cdec = _sphere_points(rng, nc)
+        which = rng.integers(0, nc, n)
+        ra, dec = sphere.destination(cra[which], cdec[which], np.abs(rng.normal(0, 0.05, n)), rng.uniform(0, 360, n))
+    else:
+        ra, dec = _sphere_points(rng, n)
+    ra = np.asarray(ra, dtype=float) % 360.0
+    dec = np.asarray(dec, dtype=float)
+    if case.get('antipodal') and n >= 2:
+        ra[1], dec[1] = (ra[0] + 180.0) % 360.0, -dec[0]
+    flux = np.exp(rng.normal(0, 1, n))
+    srcs = _sources(ra, dec, flux, rng)
+    eps = case.get('eps_chord')                 # None = call without the argument (default eps=4)
+    ctx = {'entry': 'regroup_dbscan', 'eps_chord': 'default' if eps is None else eps, 'n': n, 'cat': case.get('cat', 'sparse')}
+    seps = _pair_seps(ra, dec) if n > 1 else np.zeros((1, 1))
+    maxsep = float(seps.max())
+    o.worst('whole_sphere_largest_separation_deg', maxsep)
+    if eps is not None and eps == 2.0 and maxsep > 180.0 - 1e-5:
+        # chord 2 against a (nearly) antipodal pair: 2 - chord ~ (pi - sep)^2 / 4 is below the rounding of the chord
+        o.count('undetermined')
+        o.count('whole_sphere_undetermined')
+        return
+    for k in range(1 + case.get('shuffles', 2)):
+        order = np.arange(n) if k == 0 else rng.permutation(n)
+        inp = [srcs[i] for i in order]
+        snap = _snapshot(inp)
+        try:
+            with warnings.catch_warnings():
+                warnings.simplefilter('ignore')
+                groups = cluster.regroup_dbscan(inp) if eps is None else cluster.regroup_dbscan(inp, eps=eps)
+        except Exception:
+            o.violate('raises', dict(ctx, traceback=traceback.format_exc()[-600:]))
+            return
+        o.n_eval += 1
+        o.count('whole_sphere_runs')
+        o.count('whole_sphere_runs_default_eps' if eps is None else 'whole_sphere_runs_explicit_eps')
+        ids = sorted(id(s) for g in groups for s in g)
+        if ids != sorted(id(s) for s in srcs):
+            o.violate('not_a_partition', dict(ctx, sources_in_groups=len(ids)))
+            return
+        if len(groups) != 1:
+            # two sources of different groups although every pair is within the chord
+            lab = {id(s): g for g, grp in enumerate(groups) for s in grp}
+            l = np.array([lab[id(s)] for s in srcs])
+            sub = np.where(l[:, None] != l[None, :], seps, np.inf)
+            i, j = np.unravel_index(np.argmin(sub), sub.shape)
+            o.violate('chain_not_grouped', dict(ctx, groups=len(groups), pair=[int(i), int(j)], sep_deg=float(seps[i, j]),
+                                                chord_of_pair=float(2 * np.sin(np.radians(seps[i, j]) / 2)),
+                                                p1=[ra[i], dec[i]], p2=[ra[j], dec[j]], shuffle=k))
+            return
+        _judge_numbering(o, groups, dict(ctx, shuffle=k))
+        _check_unchanged(o, inp, snap, ('island', 'source'), dict(ctx, shuffle=k))
+        if o.violations:
+            return
+    if n >= 2:
+        o.n_nontrivial += 1
+    o.sample = {'n': n, 'eps_chord': ctx['eps_chord'], 'groups': 1, 'largest_separation_deg': maxsep}
+
+
 def _ell_norm_dist(ra, dec, a, b, pa, i, j):
     """own implementation of the normalised distance between ellipses i and j (direction i -> j)"""
     d = sphere.sep(ra[i], dec[i], ra[j], dec[j])
@@ -449,6 +517,10 @@ def _run_elliptical(o, case):
     far = case.get('far', 0.5)
     # clustered field a few degrees wide, distinct declinations by construction (checked)
     r0, d0 = float(rng.uniform(5, 355)), float(rng.uniform(-80, 80))
+    if case.get('ra0') is not None:
+        r0 = float(case['ra0'])             # e.g. 0.0: the field straddles RA 0/360
+    if case.get('dec0') is not None:
+        d0 = float(case['dec0'])            # e.g. +-89.7: the field surrounds a pole (RA span > 180 deg)
     nc = max(1, n // 5)
     cr, cd = sphere.destination(r0, d0, rng.uniform(0, case.get('field', 1.0), nc), rng.uniform(0, 360, nc))
     which = rng.integers(0, nc, n)
@@ -461,8 +533,14 @@ def _run_elliptical(o, case):
     pa = rng.uniform(-90, 90, n)
     flux = rng.choice([1.0, 2.0, 3.0], n) if case.get('equal_flux') else np.exp(rng.normal(0, 1, n))
     srcs = _sources(ra, dec, flux, rng, shapes=list(zip(a, b, pa)))
-    ctx = {'entry': 'regroup', 'eps': eps, 'far': far, 'n': n}
+    ra = ra % 360.0
+    ctx = {'entry': 'regroup', 'eps': eps, 'far': far, 'n': n, 'ra_span_deg': float(ra.max() - ra.min()),
+           'field_centre': [r0, d0]}
     o.count('elliptical_catalogues')
+    if ra.max() - ra.min() > 180:
+        o.count('elliptical_catalogues_straddling_ra0')
+        if abs(d0) > 89:
+            o.count('elliptical_catalogues_around_pole')
     first = None
     for k in range(1 + case.get('shuffles', 5)):
         order = np.arange(n) if k == 0 else rng.permutation(n)
@@ -1014,6 +1092,17 @@ def cases(seed, tier):
     out.append({'kind': 'dbscan', 'cat': 'single', 'n': 1, 'theta_deg': 0.1, 'shuffles': 1, 'seed': [0, 'single']})
     for k, th in enumerate((0.001, 0.07, 2.0)):
         out.append({'kind': 'dbscan', 'cat': 'chains', 'n': 200, 'theta_deg': th, 'seed': [0, 'chains', k]})
+    # linking lengths at / above the diameter of the sphere, and the default argument of regroup_dbscan
+    for ec in (None, 2.0, 2.5, 4, 4.0, 10.0, 1e6):
+        for cat, n, anti in (('clustered', 200, False), ('sparse', 60, True), ('sparse', 8, False), ('sparse', 2, True),
+                             ('sparse', 1, False), ('clustered', 12, False)):
+            out.append({'kind': 'dbscan_whole_sphere', 'cat': cat, 'n': n, 'antipodal': anti, 'eps_chord': ec,
+                        'seed': [0, 'whole', repr(ec), cat, n]})
+    # elliptical variant on fields that straddle RA 0/360 and that surround a pole (attribute preservation!)
+    for k, (ra0, dec0) in enumerate(((0.0, 0.0), (359.99, -40.0), (0.02, 62.0), (0.0, 89.7), (123.0, -89.8), (0.0, -75.0))):
+        for n in (6, 40):
+            out.append({'kind': 'elliptical', 'n': n, 'eps': 3.0, 'far': 0.5, 'scatter': 0.03, 'field': 0.5,
+                        'ra0': ra0, 'dec0': dec0, 'seed': [0, 'ell-wrap', k, n]})
     for psf in ('known', 'nan'):
         for n in (1, 5, 40):
             out.append({'kind': 'resize', 'n': n, 'psf': psf, 'ratio': 1, 'seed': [0, 'resize', psf, n]})
@@ -1045,6 +1134,13 @@ def cases(seed, tier):
             out.append({'kind': 'elliptical', 'n': int(rng.choice([2, 5, 20, 60, 150])), 'eps': float(rng.uniform(0.5, 6)),
                         'far': float(rng.choice([0.5, 0.1, 5.0])), 'scatter': float(10 ** rng.uniform(-2.5, -1)),
                         'equal_flux': bool(j), 'seed': [seed, 'ell', k, j]})
+        out.append({'kind': 'elliptical', 'n': int(rng.choice([3, 10, 50])), 'eps': float(rng.uniform(0.5, 6)), 'far': 0.5,
+                    'scatter': float(10 ** rng.uniform(-2.5, -1)), 'field': 0.8,
+                    'ra0': float(rng.choice([0.0, 359.9, 0.1])) if k % 2 else None,
+                    'dec0': None if k % 2 else float(rng.choice([89.6, -89.6])), 'seed': [seed, 'ell-wrap', k]})
+        out.append({'kind': 'dbscan_whole_sphere', 'cat': ('clustered', 'sparse')[k % 2], 'n': int(rng.choice([2, 9, 40, 300])),
+                    'antipodal': bool(k % 3 == 0), 'eps_chord': [None, 2.0, float(rng.uniform(2.0, 3.0)), 4, 60.0][k % 5],
+                    'seed': [seed, 'whole', k]})
         out.append({'kind': 'resize', 'n': int(rng.integers(1, 200)), 'psf': 'known', 'ratio': float(rng.uniform(1, 10)),
                     'seed': [seed, 'resize-r', k]})
         out.append({'kind': 'resize', 'n': int(rng.integers(1, 200)), 'psf': ('known', 'nan')[k % 2], 'ratio': 1,
@@ -1078,6 +1174,8 @@ def run(case):
         _run_dbscan(o, case)
     elif kind == 'elliptical':
         _run_elliptical(o, case)
+    elif kind == 'dbscan_whole_sphere':
+        _run_dbscan_whole_sphere(o, case)
     elif kind == 'resize':
         _run_resize(o, case)
     elif kind == 'aereg':
